@@ -3,7 +3,7 @@
    machines under the safety invariant Safe (Lemmas_C03b).  Part b (Lemmas_C15b.v) assembles the
    steps on the scripted world and proves the theorem. *)
 From Coq Require Import List NArith ZArith Bool Arith Lia Wf_nat.
-From CatV Require Import Bytes Defs Codec Fsm Lemmas_C03 Lemmas_C12.
+From CatV Require Import Bytes Defs Codec Fsm Script SchedDefs TermDefs Lemmas_C03 Lemmas_C12.
 Import ListNotations.
 Local Open Scope nat_scope.
 
@@ -937,7 +937,7 @@ Qed.
 Section Bounds.
 Variable D : desc.
 
-Definition max_vars : nat := fold_right (fun c a => Nat.max (length (c_vars c)) a) 0 (pool D).
+Local Notation max_vars := (max_vars D).
 
 Lemma nv_le : forall oc, nv D oc <= max_vars.
 Proof.
